@@ -43,7 +43,7 @@ def body(kind, role, tag, ind):
         elif role == 'lamstarkwparam': L += [f"{p}log('{tag}l', (lambda *a, **x: sorted(x.items()))(1, k='{tag}'), (lambda *x, **k: (x, sorted(k)))('{tag}s', x=1))"]
         elif role == 'lam_in_lam': L += [f"{p}log('{tag}n', (lambda: (lambda: x)())(), (lambda: [(lambda: x)() for _ in [0]])())"]
         elif role == 'compiter_same': L += [f"{p}log('{tag}c', [x for x in x], [y for y in x])"]
-        elif role == 'lamwalrus': L += [f"{p}log('{tag}w', (lambda: (x := '{tag}') + x)(), x)"]
+        elif role == 'lamwalrus': L += [f"{p}log('{tag}w', (lambda: (x := '{tag}') + x)(), (lambda: [(x := '{tag}' + i) for i in 'ab'] + [x, (lambda: x)()])(), x)"]
         elif role == 'assign_compiter': L += [f"{p}x = '{tag}'", f"{p}log('{tag}c', [x for x in x], [[x for x in x] for x in [x]], [x for x in [x] for x in x])"]
         elif role == 'subscript_index': L += [f"{p}d_{tag} = {{}}", f"{p}d_{tag}[x] = '{tag}'", f"{p}d_{tag}[x] += '+'"]; log(f"sorted(d_{tag}.items())")
         elif role == 'lamkwparam': L += [f"{p}log('{tag}l', (lambda *, x: x)(x='{tag}k'), (lambda a, *, x='{tag}d': (a, x))(1))"]
@@ -73,7 +73,7 @@ def body(kind, role, tag, ind):
         elif role == 'compiter_same': L += [f"{p}a_{tag} = ([x for x in x], [y for y in x], list(x for x in x))"]
         elif role == 'assign_lam_read': L += [f"{p}x = '{tag}'", f"{p}a_{tag} = (lambda: x)()", f"{p}def m_{tag}(k=x, *, j=x): return (k, j)", f"{p}b_{tag} = (x, m_{tag}(), x + '+')"]
         elif role == 'assign_lam_compiter': L += [f"{p}x = '{tag}'", f"{p}a_{tag} = list(x for _ in [0])", f"{p}b_{tag} = ([y for y in x], [x for x in x])"]
-        elif role == 'lamwalrus': L += [f"{p}a_{tag} = ((lambda: (x := '{tag}') + x)(), x)"]
+        elif role == 'lamwalrus': L += [f"{p}a_{tag} = ((lambda: (x := '{tag}') + x)(), (lambda: [(x := '{tag}' + i) for i in 'ab'] + [x, (lambda: x)()])(), x)"]
         elif role == 'assign_compread': L += [f"{p}x = '{tag}'", f"{p}a_{tag} = [x for _ in [0]]"]
         elif role == 'lamstarkw': L += [f"{p}a_{tag} = (lambda *a, **x: sorted(x.items()))(1, k='{tag}')", f"{p}b_{tag} = (lambda *x, **k: (x, sorted(k)))('{tag}s', x=1)"]
         elif role == 'decoclass': L += [f"{p}@(lambda c: type(c.__name__, (c,), {{'d': '{tag}d'}}))", f"{p}class x: v = '{tag}'", f"{p}a_{tag} = (x.v, getattr(x, 'd', None))"]
@@ -171,8 +171,6 @@ def classes(ma, chain):
         b = binder_idx(chain, i) if free_here else None
         if k == 'c' and r == 'read_then_assign':
             cs.add('KF-D27')
-        if r == 'lamwalrus':
-            cs.add('KF-D74')
         if k == 'c' and r == 'assign_compread' and sys.version_info >= (3, 12):
             cs.add('KF-D72')
         if k == 'c' and r in ('assign_lam_read', 'assign_lam_compiter', 'assign_compread') and binder_idx(chain, i) is not None:
